@@ -257,15 +257,12 @@ theorem offset_ok {r : Rect} (h : W.rect r) {o : Int} (ho : W.coord o) :
   obtain ⟨_, _⟩ := ho
   unfold W.size at *
   unfold offset Rect.offset
-  rw [center_ok (by unfold W.pt W.coord; omega) (by omega)]
   by_cases hpos : o ≥ 0
   · simp only [hpos, ↓reduceIte]
+    rw [ptSub_ok (by simp only; omega) (by simp only; omega)]
     chk_simp
-    apply withCenter_ok (by omega)
-    simp only [Sz.satAdd, Sz.newEqual]
-    rw [satAddU32_small (by omega), satAddU32_small (by omega)]
-    omega
   · simp only [hpos, ↓reduceIte]
+    rw [center_ok (by unfold W.pt W.coord; omega) (by omega)]
     chk_simp
     apply withCenter_ok (by omega)
     simp only [Sz.satSub, Sz.newEqual]
